@@ -1,0 +1,80 @@
+//go:build verif
+
+// Contracts for package protocol, checked by /verif/govc (comment-only file; see /verif/DESIGN.md).
+// "decoder" = func contract with the defaults: no precondition (total on any bytes), modifies only the
+// receiver, and the result shares no memory with the input (own/noalias).
+
+package protocol
+
+//@ property C08 min-obligations 150
+
+// ---------------------------------------------------------------------------------------------
+// sizes that decoders and their callers rely on
+
+//@ func (*VLAN).Len(v) (n) [C08 C06 C13]
+//@   ensures n == 4
+
+//@ func (*Option).Len(o) (n) [C08 C06 C13]
+//@   ensures n == uint16(o.Length) + 2
+
+//@ func (*HopByHopHeader).Len(h) (n) [C08 C06 C13]
+//@   ensures n == 8*(uint16(h.HEL) + 1)
+
+//@ func (*RoutingHeader).Len(h) (n) [C08 C06 C13]
+//@   ensures n == 8*(uint16(h.HEL) + 1)
+
+//@ func (*FragmentHeader).Len(h) (n) [C08 C06 C13]
+//@   ensures n == 8
+
+//@ func (*IGMPv3GroupRecord).Len(p) (n) [C08 C13]
+//@   ensures n == 8 + uint16(p.AuxDataLen)*4 + p.NumberOfSources*4
+
+// ---------------------------------------------------------------------------------------------
+// decoders: any byte string gives a value or an error, no panic, loops make progress
+
+//@ decoder (*VLAN).UnmarshalBinary(v, data) (err) [C08 C12]
+//@   ensures err == nil ==> len(data) >= 4
+
+//@ decoder (*ARP).UnmarshalBinary(a, data) (err) [C08 C12]
+
+//@ decoder (*ICMP).UnmarshalBinary(i, data) (err) [C08 C12]
+
+//@ decoder (*UDP).UnmarshalBinary(u, data) (err) [C08 C12]
+
+//@ decoder (*TCP).UnmarshalBinary(t, data) (err) [C08 C12]
+
+//@ decoder (*IPv4).UnmarshalBinary(i, data) (err) [C08 C12]
+
+//@ decoder (*Option).UnmarshalBinary(o, data) (err) [C08 C12]
+//@   ensures err == nil ==> int(o.Length) + 2 <= len(data)
+
+//@ decoder (*HopByHopHeader).UnmarshalBinary(h, data) (err) [C08 C12]
+//@   ensures err == nil ==> 8*(int(h.HEL) + 1) <= len(data)
+//@   loop 1:
+//@     invariant 2 <= n && n <= len(data)
+//@     decreases 8*(int(h.HEL) + 1) - n
+
+//@ decoder (*RoutingHeader).UnmarshalBinary(h, data) (err) [C08 C12]
+//@   ensures err == nil ==> 8*(int(h.HEL) + 1) <= len(data)
+
+//@ decoder (*FragmentHeader).UnmarshalBinary(h, data) (err) [C08 C12]
+//@   ensures err == nil ==> len(data) >= 8
+
+//@ decoder (*IPv6).UnmarshalBinary(i, data) (err) [C08 C12]
+//@   loop 1:
+//@     invariant checkExtHeader && 40 <= n && n <= len(data)
+//@     decreases len(data) - n
+
+//@ decoder (*Ethernet).UnmarshalBinary(e, data) (err) [C08 C12]
+
+//@ decoder (*IGMPv1or2).UnmarshalBinary(p, data) (err) [C08 C12]
+
+//@ decoder (*IGMPv3Query).UnmarshalBinary(p, data) (err) [C08 C12]
+//@   loop 1:
+//@     invariant 0 <= j && j <= int(p.NumberOfSources) && n == 12 + 4*j && 12 + 4*int(p.NumberOfSources) <= len(data)
+//@     decreases int(p.NumberOfSources) - j
+
+//@ decoder (*IGMPv3GroupRecord).UnmarshalBinary(p, data) (err) [C08 C12]
+//@   ensures err == nil ==> 8 + 4*int(p.AuxDataLen) + 4*int(p.NumberOfSources) <= len(data)
+
+//@ decoder (*IGMPv3MembershipReport).UnmarshalBinary(p, data) (err) [C08 C12]
